@@ -12,7 +12,7 @@ MCFamily ==
 
 Init ==
     /\ desc \in MCFamily
-    /\ orc = Oracle(desc, TRUE)
+    /\ orc = Oracle(desc, TRUE, 1000)
     /\ pc = "idle" /\ prune = FALSE /\ nodes = desc.tr
     /\ prob = Null /\ rstrat = Null /\ rew = Null /\ fstrat = Null /\ res = Null /\ ro = Null
     /\ hist = [b \in BOOLEAN |-> Null]
